@@ -262,12 +262,22 @@ class FakeSocket(object):
         if not self.closed:
             self.closed = True
             self.out.eof = True
+            self._tell_peer()
 
     def abort(self):
         """Crash: socket vanishes; peer sees reset after draining."""
         self.closed = True
         self.out.eof = True
         self.out.reset = True
+        self._tell_peer()
+
+    def _tell_peer(self):
+        # opt-in (Link.epipe_after_close): once this end is gone, the other
+        # end's sends fail with EPIPE while what was written before stays
+        # readable
+        p = getattr(self, "peer", None)
+        if p is not None and getattr(self, "epipe_after_close", False):
+            p.peer_gone = p.peer_gone or "epipe"
 
     def shutdown(self, how):
         self.out.eof = True
@@ -308,6 +318,12 @@ class Link(object):
                                 self.stats, wb_budget)
         self.ssock = FakeSocket(names[1], self.c2s, self.s2c, chooser, policy,
                                 self.stats, wb_budget)
+        self.csock.peer = self.ssock
+        self.ssock.peer = self.csock
+
+    def set_epipe_after_close(self, on=True):
+        self.csock.epipe_after_close = on
+        self.ssock.epipe_after_close = on
 
     def pipes(self):
         return (self.c2s, self.s2c)
